@@ -281,6 +281,11 @@ func init() {
 	}
 	checks["C19"] = func(c *ctx) {
 		s := schedC19(c)
-		both(c, s, nil)
+		o := prog.DefaultOpts()
+		o.InstrPct, o.PredPct, o.FallbackPct = 100, 20, 20
+		g := genPart(c, "C19", c.pick(40, 400), c.pick(40, 400), o, 1, "state", c.pick(1, 3), false,
+			"a cff.SchedulerEmitter (through WithEmitter, default flush interval) received at least one state report: one function is held until the first report arrives, the report releases it and lingers 2 ms inside EmitScheduler; "+
+				"every report is checked (counts, Concurrency = the directive's limit, Pending <= the directive's jobs) and none may still be in delivery when the directive has returned nil")
+		both(c, s, g)
 	}
 }
